@@ -234,3 +234,18 @@ claim("C01",
            "side-checked per case. Case folding is ASCII. U+2029 is treated as a line separator (outside the quantifier).",
       technique="Lean 4 proof over executable model + differential correspondence with the Python implementation",
       design_ref="DESIGN.md §5 C01")
+
+claim("C02",
+      text="Proved for the Lean model (21 theorems). SimpleDMRS: token-level encode/decode round trip with arbitrary remainder for "
+           "all option settings and the list API, under the explicit expressibility predicate, and stability of re-encoding; the "
+           "F11 hypothesis 'no node of type u' is isolated as _partial, with a counter-example theorem (known finding). "
+           "DMRS-JSON: dictionary round trip. DMRX: tree round trip, assuming the predicate survives realpred splitting (proved "
+           "for abstract predicates). The suppression views: properties=false removes type and properties in DMRX and JSON, only "
+           "properties in SimpleDMRS; lnk=false removes alignment and surface. The node-0 top-link normalisation lemmas. The "
+           "bijective renumbering from 10000 of DMRS-PENMAN (top first, consecutive, connected graphs keep all nodes).",
+      note="Not proved: the PENMAN triples round trip fromTriples∘toTriples = viewP, and create∘split = id for surface predicates; "
+           "both are only compared with the real code. Compared, not proved: the regex lexer, the text layout, indent, and the "
+           "file API. Assumed as parameters and checked by side oracles: xml.etree, json, penman (up to node order; literal PENMAN "
+           "text stability is not demanded, graph equality each round is), ASCII case mapping.",
+      technique="Lean 4 proof over executable model + differential correspondence with the Python implementation",
+      design_ref="DESIGN.md §5 C02")
